@@ -1,4 +1,6 @@
 mod bad;
+mod deps;
+mod tags;
 mod entropy;
 mod ev;
 mod exec;
@@ -252,7 +254,7 @@ fn worker(args: &[String]) -> i32 {
         }
         if let Some(v) = &o.violation {
             // known finding? try the raw violation first, then the minimised one
-            let mut matched = known.matches(prop, v).map(|f| (f.id.clone(), f.what.clone()));
+            let mut matched = known.matches(prop, v, false).map(|f| (f.id.clone(), f.what.clone()));
             let mut reported = false;
             if matched.is_none() {
                 if unmatched_classes.contains(&v.class()) {
@@ -260,7 +262,7 @@ fn worker(args: &[String]) -> i32 {
                     reported = true;
                 } else {
                     let m = minimise::minimise(prop, &g.init, &o.trace, v);
-                    matched = known.matches(prop, &m.violation).map(|f| (f.id.clone(), f.what.clone()));
+                    matched = known.matches(prop, &m.violation, true).map(|f| (f.id.clone(), f.what.clone()));
                     if matched.is_none() {
                         unmatched_classes.insert(v.class());
                         unmatched_classes.insert(m.violation.class());
@@ -280,6 +282,15 @@ fn worker(args: &[String]) -> i32 {
                 }
             }
             if let Some((id, what)) = matched {
+                if std::env::var("VERIF_SAVE_WITNESSES").is_ok() && !out.known_hits.contains_key(&id) {
+                    let wpath = format!("{}/witnesses/{}.json", verif_dir(), id);
+                    if !std::path::Path::new(&wpath).exists() {
+                        let m = minimise::minimise(prop, &g.init, &o.trace, v);
+                        let tmp = write_replay(prop, tier, verif_seed, index, &m.init, &m.events, &m.violation, o.trace.len());
+                        let _ = std::fs::create_dir_all(format!("{}/witnesses", verif_dir()));
+                        let _ = std::fs::rename(&tmp, &wpath);
+                    }
+                }
                 let e = out.known_hits.entry(id).or_insert((0, what));
                 e.0 += 1;
             } else if !reported {
@@ -412,7 +423,10 @@ fn check(args: &[String]) -> i32 {
             let _ = std::fs::remove_file(&v.replay);
             continue;
         }
-        let st = std::process::Command::new(&exe).args(["replay", &v.replay, "--quiet"]).status();
+        let st = std::process::Command::new(&exe)
+            .args(["replay", &v.replay, "--quiet"])
+            .stdout(std::process::Stdio::null())
+            .status();
         match st {
             Ok(s) if s.code() == Some(1) => confirmed.push(v.clone()),
             other => {
@@ -685,6 +699,39 @@ fn selftest(args: &[String]) -> i32 {
     }
 }
 
+/// Debug aid: prints the snapshot entries matching a filter after every event of a replay file.
+fn dump(args: &[String]) -> i32 {
+    let path = args.first().cloned().unwrap_or_default();
+    let filt = args.get(1).cloned().unwrap_or_default();
+    let rf: ReplayFile = match std::fs::read_to_string(&path).ok().and_then(|t| serde_json::from_str(&t).ok()) {
+        Some(r) => r,
+        None => return 2,
+    };
+    exec::warm_up();
+    let r = exec::on_run_thread(rf.config.hash_key, move || {
+        let mut w = match world::World::new(&rf.config) {
+            Ok(w) => w,
+            Err(e) => {
+                println!("init: {e}");
+                return;
+            }
+        };
+        for (i, r) in rf.events.iter().enumerate() {
+            let res = w.step(&r.ev);
+            println!("#{i} {} -> {:?} {:?}", serde_json::to_string(&r.ev).unwrap_or_default(), res.result, res.panic);
+            for (k, v) in snap::snapshot(&w.primary) {
+                if k.contains(&filt) {
+                    println!("     {k} = {v}");
+                }
+            }
+        }
+    });
+    match r {
+        ThreadResult::Done(()) => 0,
+        _ => 2,
+    }
+}
+
 fn main() {
     let args: Vec<String> = std::env::args().skip(1).collect();
     let code = match args.first().map(|s| s.as_str()) {
@@ -692,6 +739,7 @@ fn main() {
         Some("worker") => worker(&args[1..]),
         Some("replay") => replay(&args[1..]),
         Some("selftest") => selftest(&args[1..]),
+        Some("dump") => dump(&args[1..]),
         _ => {
             eprintln!("usage: icsim check <prop> [quick|thorough] | replay <file> | selftest [n]");
             2
